@@ -209,15 +209,16 @@ def run(run: Run) -> None:
     us.append(("games", 4, list(nearly_additive(4))))
     width = 4 if quick else 48
     for name in gens.names():
-        for n in ((3, 4, 5, 6) if not quick else (3, 4)):
+        for n in ((3, 4, 5, 6) if not quick else (3, 4, 5, 6)):
             if n == 6 and name == "oxs":
                 continue
-            us.append(("gen", name, n, list(gens.seed_window(seed, width if n < 6 else 8))))
+            w = width if n < 5 else (1 if quick else (width if n == 5 else 8))
+            us.append(("gen", name, n, list(gens.seed_window(seed, w))))
     run.rule = ("every game of A3-SA / A4-SA with additive shifts and dyadic copies, additive games (integer and float), nearly additive games "
                 "(additive + 2^-k * superadditive), every registered generator x seed window (graph games in both representations): normalised values "
                 "compared with exact-rational normalisation under the three-zone specification; de-normalisation restores the input. "
                 "non-trivial = instances in zone A or C (instances between the zones are counted as trivial)")
-    run.bounds = {"n": [3, 4] if quick else [3, 4, 5], "seed_window_width": width}
+    run.bounds = {"n": [3, 4, 5, 6], "seed_window_width": width}
     run.assumptions = ["between 1e-12 and 2^-21 relative surplus either outcome is accepted (a correct implementation may put its additive threshold anywhere there)"]
     run.add(fanout(unit, us, chunk=1))
 
